@@ -12,7 +12,18 @@ SQRTEPS = 1.4901161193847656e-08
 
 
 def pos(u0, q, size):
-    return (u0 + z3.ToReal(q)) / z3.ToReal(size)
+    """comb position q.  u0 is the one shared offset (a z3 Real); a callable u0 stands for per-position offsets u0(q)"""
+    return ((u0(q) if callable(u0) else u0) + z3.ToReal(q)) / z3.ToReal(size)
+
+
+def offset_of(st):
+    """the uniform offset of the comb as drawn by the code: a z3 Real for the one shared np.random.random() draw, a function of the
+    position when the code draws one offset per position (then the comb is not systematic: see the `one-shared-offset` obligation)"""
+    kind, val = st.ghost["draws"][-1]
+    if kind == "random":
+        return val, True
+    a = st.arr(val)
+    return (lambda q: a.at(q)), False
 
 
 def charac(P, idx, q, u0, size, n):
@@ -47,7 +58,7 @@ def systematic(ctx, arm):
         st = v.state
         W = v["weights"]
         P = sums.prefix_fn(st, W)
-        u0 = st.ghost["draws"][-1][1]
+        u0 = offset_of(st)[0]
         return W, P, u0
 
     def outer(v):
@@ -81,9 +92,10 @@ def systematic(ctx, arm):
         lst = st.ghost["sumarrs"]
         W, Pw = lst[-1] if arm == "in-tolerance" else lst[-1]
         n = info["n"]
-        u0 = st.ghost["draws"][-1][1]
+        u0, shared = offset_of(st)
         q = z3.Int("q!p")
-        g = [("length", to_z3(idx.shape[0], "int") == size),
+        g = [("one-shared-offset", z3.BoolVal(shared and len([d for d in st.ghost["draws"] if d[0] in ("random", "rand")]) == 1)),
+             ("length", to_z3(idx.shape[0], "int") == size),
              ("range", z3.ForAll([q], z3.Implies(z3.And(q >= 0, q < size), z3.And(idx.at(q) >= 0, idx.at(q) < n)))),
              ("monotone", z3.ForAll([q], z3.Implies(z3.And(q >= 0, q < size - 1), idx.at(q) <= idx.at(q + 1)))),
              ("characterisation", z3.ForAll([q], z3.Implies(z3.And(q >= 0, q < size),
@@ -217,6 +229,8 @@ def resampler(ctx, scheme):
 
 
 def run(ctx):
+    from . import lean as _lean
+    _lean.require(ctx, "Sums.lean", ['prefix_unique', 'sum_prefix_nonneg', 'sum_prefix_mono', 'sum_scale', 'sum_div_const'])
     systematic(ctx, "in-tolerance")
     systematic(ctx, "renormalised")
     counting_lemmas(ctx)
@@ -224,7 +238,7 @@ def run(ctx):
     resampler(ctx, "syst")
     ctx.trust("np.random.random() in [0,1)", "np.random.choice: returns `size` elements of a when p is a distribution over a; "
               "E[copies of i] = size*p_i (law of the primitive, assumed)",
-              "L-SUM lemmas (prefix sums: definition, monotone for non-negative summands, linearity)",
+              "L-SUM rules: each statement is machine-checked in Lean/Mathlib over Finset sums (lemmas/Sums.lean; prefix_unique identifies the prefix function with the finite sum); what stays trusted is the transcription of those statements into the z3 axioms/rules of pyvc/theories/sums.py",
               "counting step: copies(i) = floor(n*P(i) - u0) - floor(n*P(i-1) - u0) from the characterisation (textbook; not machine-checked)",
               "E[copies(i)] = n*w_i for systematic resampling: integral over u0 of the floor difference (textbook; not machine-checked)")
     ctx.undecided_clauses.append("exact unbiasedness E[copies]=n*w_i is a statement about the law of u0: reduced to the "
